@@ -111,6 +111,7 @@ func checkC16(c *Ctx) {
 	c.endOfLevelsSignal()
 	c.lookupsConsultTheTree()
 	c.noWaitOnNilChannels()
+	c.noAbandonedResultChannel()
 	c.condLocksExclusive()
 }
 
